@@ -329,7 +329,9 @@ def _plain(v, depth=0):
         return "<%s>" % (getattr(v, "name", None) or type(v).__name__)
     if isinstance(v, dict):
         return sorted((repr(_plain(k, depth + 1)), _plain(x, depth + 1)) for k, x in v.items())
-    if isinstance(v, (list, tuple, set, frozenset)) or type(v).__name__ == "deque":
+    if isinstance(v, (set, frozenset)):
+        return sorted(repr(_plain(x, depth + 1)) for x in v)      # (iteration order of a set is not an observation)
+    if isinstance(v, (list, tuple)) or type(v).__name__ == "deque":
         return [_plain(x, depth + 1) for x in v]
     if isinstance(v, (int, float, str, bool, type(None))):
         return v
